@@ -936,6 +936,10 @@ func writeEvidence(spec Spec, tier string, seed uint64, a *agg, b *Build, wall f
 	if err := os.WriteFile(tmp, data, 0644); err != nil {
 		return err
 	}
+	if tier == "thorough" {
+		// keep the deepest exploration on record next to the file of the last run
+		os.WriteFile(filepath.Join(evDir, spec.Prop+".thorough.json"), data, 0644)
+	}
 	return os.Rename(tmp, filepath.Join(evDir, spec.Prop+".json"))
 }
 
